@@ -303,13 +303,16 @@ def run(tier):
     states_req = ['IDLE', 'RUNNING', 'PAUSED', 'SUCCESS', 'ERROR', 'CANCELLED', 'DELAYED', 'WAITING', 'SKIPPED', 'BOGUS']
     for cur in ('RUNNING', 'PAUSED', 'SUCCESS', 'ERROR', 'CANCELLED'):
         for req in states_req:
-            for descr in (False, True):
+            for descr, envf in ((False, False), (True, False), (False, True), (True, True)):
                 f = _fixtures(env)
                 body = {'state': req}
                 if descr:
                     body['description'] = 'changed'
+                if envf:
+                    # a new environment in the same request (allowed together with RUNNING only)
+                    body['params'] = {'env': {'k': 'v2'}}
                 one('executions:update:state', 'PUT', '/v2/executions/%s' % f['ex_' + cur], json.dumps(body), 'application/json',
-                    ['executions:update'], 0, extra=dict(kind='exec_put', cur=cur, req=req, descr=descr))
+                    ['executions:update'], 0, extra=dict(kind='exec_put', cur=cur, req=req, descr=descr, envf=envf))
         for force in (False, True):
             f = _fixtures(env)
             one('executions:delete:state', 'DELETE', '/v2/executions/%s%s' % (f['ex_' + cur], '?force=true' if force else ''), None, None,
@@ -435,7 +438,7 @@ def run(tier):
         'traces_validated_against_impl': len(recs),
         'evaluations': len(recs), 'distinct_nontrivial': len(nontrivial),
         'rule': 'catalogued operations x (allowed | each documented rule denied) x resource present/absent through the real WSGI app, plus the '
-                'state-change tables (execution PUT: 5 current x 10 requested states x description; execution DELETE: 5 states x force; '
+                'state-change tables (execution PUT: 5 current x 10 requested states x description x environment; execution DELETE: 5 states x force; '
                 'task PUT: 2 x 3 current x 7 requested); non-trivial = distinct requests with a denied rule or a state change',
         'exposed_controller_methods': len(exposed), 'exposed_not_catalogued': uncovered,
         'samples': [x for x in recs if x['deny']][:2] + [x for x in recs if x['kind'] == 'exec_put'][:1],
